@@ -10,6 +10,13 @@ written here from the property text):
             lean/KskmProofs/Lemmas/C17Reference.lean; decode-back and pairwise distinctness.
   tool      `kskm.tools.sha2wordlist.words()` in file and stdin mode prints the same hex / words as
             `kskm.common.integrity` for the same bytes (sizes of /repo/testing/sha2wordlist/regression.sh).
+  tool-main the tool through its REAL ENTRY POINT `main()` (sys.argv as argparse reads it; in this process, and in a fresh
+            interpreter the way the console script starts it) with 0 (stdin), 1, 2, 3.. file names in ONE invocation: the
+            same file twice, an empty file, a file that is the concatenation of two others, every order of three files,
+            a missing file first / in the middle / last, random lists of 2..6 names.  One block per readable argument in
+            argument order, each the digest and words of THAT file's octets (hashlib + reference list) whatever was
+            named before it; the same file is shown with one digest over all invocations; a missing file stops the
+            tool with an error after correct blocks for the files before it.  Model: the per-file tool once per argument.
   schedule  `load_ksr` / `load_skr` / `request_from_xml_file` over a fake file whose content differs on
             EVERY open, fstat and read (patched `open` / `os` names of the loader modules, with
             counters): one open, one read, logged digest = sha256 of exactly the bytes served on that
@@ -530,6 +537,176 @@ def stream_tool(res: Result, tier: str, driver_ok: bool, ref: list[tuple[str, st
             res.disagreement("sha2wordlist tool: model lines != printed lines", case, printed, m)
         if len(res.samples) < 3 and case["size"] == 32 and case["mode"] == "stdin":
             res.sample({"case": case, "printed": printed, "model": m})
+
+
+# ---- the tool through its real entry point: main() with an argument list ----------------------------------------
+
+
+def _tool_blocks(printed: list[str]) -> list[dict[str, Any]]:
+    """The printed lines cut into one block per `Filename:` / `SHA-256:` / `PGP Words:` group, in the order printed."""
+    blocks: list[dict[str, Any]] = []
+    cur: dict[str, Any] = {}
+    for line in printed:
+        if line.startswith("Filename:"):
+            if cur:
+                blocks.append(cur)
+            cur = {"filename": line[len("Filename:") :].strip()}
+        elif line.startswith("SHA-256:"):
+            if "hex" in cur:
+                blocks.append(cur)
+                cur = {}
+            cur["hex"] = line.split(":", 1)[1].strip()
+        elif line.startswith("PGP Words:"):
+            cur["words"] = line.split(":", 1)[1].strip()
+            blocks.append(cur)
+            cur = {}
+    if cur:
+        blocks.append(cur)
+    return blocks
+
+
+def _tool_main_inprocess(argv: list[str], stdin: bytes | None) -> tuple[list[str], Any]:
+    """`kskm.tools.sha2wordlist.main()` in this process with sys.argv = [prog] + argv (argparse reads it) and the given stdin."""
+    from kskm.tools import sha2wordlist as tool
+
+    class _Stdin:
+        buffer = io.BytesIO(stdin or b"")
+
+    buf = io.StringIO()
+    old_argv, old_stdin = sys.argv, sys.stdin
+    sys.argv = ["kskm-sha2wordlist", *argv]
+    sys.stdin = _Stdin()  # type: ignore[assignment]
+    try:
+        with contextlib.redirect_stdout(buf), contextlib.redirect_stderr(io.StringIO()):
+            try:
+                out = run_impl(tool.main)
+            except SystemExit as exc:  # argparse
+                out = {"error": f"SystemExit({exc.code})"}
+    finally:
+        sys.argv, sys.stdin = old_argv, old_stdin
+    printed = buf.getvalue().split("\n")
+    if printed and printed[-1] == "":
+        printed = printed[:-1]
+    return printed, out
+
+
+def _tool_main_subprocess(argv: list[str], stdin: bytes | None) -> tuple[list[str], Any]:
+    """The same in a fresh interpreter, the way the console script `kskm-sha2wordlist` starts it."""
+    import subprocess
+
+    code = "import sys; sys.path.insert(0, sys.argv.pop(1)); from kskm.tools.sha2wordlist import main; main()"
+    p = subprocess.run([sys.executable, "-c", code, str(REPO / "src"), *argv], input=stdin or b"", capture_output=True, timeout=120)
+    printed = p.stdout.decode("utf-8", "replace").split("\n")
+    if printed and printed[-1] == "":
+        printed = printed[:-1]
+    return printed, ({"ok": None} if p.returncode == 0 else {"error": f"exit status {p.returncode}"})
+
+
+def stream_tool_main(res: Result, tier: str, driver_ok: bool, ref: list[tuple[str, str]]) -> None:
+    """The stand-alone tool through `main()` with 0 (stdin), 1, 2, 3.. file names in ONE invocation: the same file twice, an
+    empty file, a file that is the concatenation of two others, a missing file first / in the middle / last, every order of
+    three files, random lists.  Oracle from the property text: the block printed for a file is the digest and the words of
+    THAT file's octets (hashlib + the reference list) — one block per argument, in argument order, whatever else was named
+    before or after it in this or in an earlier invocation; nothing is printed for a file that cannot be read and every
+    block printed before it is right."""
+    r = lib.rng("C17:tool-main")
+    quick = tier == "quick"
+    with tempfile.TemporaryDirectory(prefix="kskm_c17_main_") as d:
+        a, b = r.randbytes(32), r.randbytes(1024)
+        pool: dict[str, bytes] = {
+            "a.bin": a, "b.bin": b, "empty.bin": b"", "a+b.bin": a + b, "ksr.xml": KSR_FILE.read_bytes(), "skr.xml": SKR_FILE.read_bytes(),
+            "hello.txt": b"hello\n", "block.bin": r.randbytes(64), "with space.bin": r.randbytes(55), "big.bin": r.randbytes(70000 if quick else 1 << 20),
+        }
+        for name, data in pool.items():
+            (Path(d) / name).write_bytes(data)
+        missing = "missing.xml"
+        names = list(pool)
+        argvs: list[tuple[str, list[str]]] = [("stdin", [])]
+        argvs += [("one-file", [n]) for n in names]
+        argvs += [("two-files", x) for x in (["a.bin", "b.bin"], ["b.bin", "a.bin"], ["ksr.xml", "skr.xml"], ["empty.bin", "a.bin"], ["a.bin", "empty.bin"], ["a.bin", "a+b.bin"], ["big.bin", "hello.txt"])]
+        argvs += [("same-file-twice", x) for x in (["a.bin", "a.bin"], ["empty.bin", "empty.bin"], ["ksr.xml", "skr.xml", "ksr.xml"], ["a.bin", "b.bin", "a.bin", "b.bin"], ["b.bin", "b.bin", "b.bin"])]
+        import itertools
+
+        argvs += [("three-files-every-order", list(p)) for p in itertools.permutations(["a.bin", "b.bin", "empty.bin"])]
+        argvs += [("three-files-every-order", list(p)) for p in itertools.permutations(["a.bin", "b.bin", "a+b.bin"])]
+        argvs += [("missing-file", x) for x in ([missing], [missing, "a.bin"], ["a.bin", missing, "b.bin"], ["a.bin", "b.bin", missing], ["a.bin", "a.bin", missing, "a.bin"])]
+        for _ in range(25 if quick else 300):
+            argvs.append(("random-list", [r.choice(names) for _ in range(r.randint(2, 6))]))
+        stdin_datas = [b"", a, pool["ksr.xml"]]
+        runs: list[dict[str, Any]] = []
+        for shape, names_ in argvs:
+            for stdin in (stdin_datas if not names_ else [None]):
+                argv = [str(Path(d) / n) for n in names_]
+                printed, out = _tool_main_inprocess(argv, stdin)
+                runs.append({"shape": shape, "names": names_, "argv": argv, "stdin": stdin, "printed": printed, "out": out, "how": "main() in-process"})
+        # the console-script way: a fresh interpreter per invocation
+        for shape, names_, stdin in [("same-file-twice", ["ksr.xml", "skr.xml", "ksr.xml"], None), ("stdin", [], pool["skr.xml"])] + ([("three-files-every-order", ["a+b.bin", "b.bin", "a.bin"], None), ("missing-file", ["a.bin", missing, "b.bin"], None)] if not quick else []):
+            argv = [str(Path(d) / n) for n in names_]
+            printed, out = _tool_main_subprocess(argv, stdin)
+            runs.append({"shape": shape, "names": names_, "argv": argv, "stdin": stdin, "printed": printed, "out": out, "how": "fresh interpreter"})
+        # model: main() is the per-file tool, once per argument in argument order (once on stdin without arguments)
+        lines: list[dict[str, Any]] = []
+        for run_ in runs:
+            run_["first_line"] = len(lines)
+            if not run_["names"]:
+                lines.append({"op": "sha2wordlist_tool", "message": "", "digest": hexs(sha(run_["stdin"] or b"")), "filename": None})
+            for n, fn in zip(run_["names"], run_["argv"]):
+                if n == missing:
+                    break
+                lines.append({"op": "sha2wordlist_tool", "message": "", "digest": hexs(sha(pool[n])), "filename": fn})
+            run_["n_lines"] = len(lines) - run_["first_line"]
+        model = run_driver(lines, exe=DRIVER) if driver_ok else None
+        shown: dict[str, set[tuple[Any, Any]]] = {}
+        for run_ in runs:
+            names_, printed, out = run_["names"], run_["printed"], run_["out"]
+            case = {"stream": "tool-main", "how": run_["how"], "shape": run_["shape"], "files": names_, "stdin": None if run_["stdin"] is None else f"sha256:{hashlib.sha256(run_['stdin']).hexdigest()}"}
+            res.count(case)
+            res.bump("tool-main:" + run_["shape"])
+            res.bump("tool-main:" + run_["how"])
+            res.bump(f"tool-main:files:{min(len(names_), 4)}{'+' if len(names_) >= 4 else ''}")
+            blocks = _tool_blocks(printed)
+            # what the property text says must be on stdout
+            n_ok = names_.index(missing) if missing in names_ else len(names_)
+            want: list[dict[str, Any]] = []
+            if not names_:
+                dg = sha(run_["stdin"] or b"")
+                want.append({"hex": ref_hex(dg), "words": " ".join(ref_words(ref, dg))})
+            for n, fn in list(zip(names_, run_["argv"]))[:n_ok]:
+                dg = sha(pool[n])
+                want.append({"filename": fn, "hex": ref_hex(dg), "words": " ".join(ref_words(ref, dg))})
+            got = [bl for bl in blocks if "hex" in bl or "words" in bl]
+            for pos, bl in enumerate(got):
+                if "filename" in bl:
+                    shown.setdefault(bl["filename"], set()).add((bl.get("hex"), bl.get("words")))
+                w = want[pos] if pos < len(want) else None
+                if w is None or bl != w:
+                    res.violation(
+                        "sha2wordlist tool (main): the digest / words printed for a file are not those of that file's octets", case, key=f"tool-main:values:{run_['shape']}",
+                        position=pos + 1, file=names_[pos] if pos < len(names_) else None, printed=bl, expected=w, files_named_before=names_[:pos],
+                    )
+                    break
+            else:
+                if len(got) != len(want):
+                    res.violation("sha2wordlist tool (main): not one result per readable file named", case, key=f"tool-main:count:{run_['shape']}", printed=got, expected=want)
+            if missing in names_:
+                if "ok" in out:
+                    res.violation("sha2wordlist tool (main): a file that does not exist did not stop the tool with an error", case, key="tool-main:missing", out=out, printed=printed)
+            elif "ok" not in out:
+                res.violation("sha2wordlist tool (main): failed on readable files", case, key=f"tool-main:failed:{run_['shape']}", out=out, printed=printed[-4:])
+            # the tie with the model
+            if model is not None:
+                m_lines = [x for m in model[run_["first_line"] : run_["first_line"] + run_["n_lines"]] for x in m]
+                if missing in names_:
+                    m_lines.append(f"Filename:   {run_['argv'][n_ok]}")
+                if m_lines != printed:
+                    res.disagreement("sha2wordlist tool (main): model lines (the per-file tool once per argument) != printed lines", case, printed, m_lines)
+            if res.stats.get("tool-main:sampled", 0) < 1 and run_["shape"] == "same-file-twice" and len(names_) == 3:
+                res.stats["tool-main:sampled"] = 1
+                res.sample({"case": case, "printed": printed}, limit=8)
+        # one file, one digest: over all invocations and positions
+        for fn, vals in shown.items():
+            if len(vals) > 1:
+                res.violation("sha2wordlist tool (main): the same file was shown with different digests depending on the other arguments", {"stream": "tool-main", "file": os.path.basename(fn)}, key="tool-main:same-file", shown=sorted(map(list, vals), key=str))
 
 
 def _loader_case(kind: str, contents: list[bytes], tag: str) -> dict[str, Any]:
@@ -1525,6 +1702,7 @@ def _first_text_diff(a: bytes, b: bytes) -> dict[str, Any]:
 STREAMS = [
     ("words", stream_words),
     ("tool", stream_tool),
+    ("tool-main", stream_tool_main),
     ("schedule", stream_schedule),
     ("entry", stream_entry),
     ("output", stream_output),
@@ -1538,7 +1716,9 @@ def run(tier: str, driver_ok: bool) -> Result:
     res = Result("C17")
     res.rule = (
         "words: all 512 table entries + random octet strings of every length 0..64 + long ones, 4 functions each, three-way; "
-        "tool: file and stdin mode at the regression script's sizes; schedule: 16 named + random schedules of content per operation "
+        "tool: file and stdin mode at the regression script's sizes; tool-main: main() with argument lists of 0 (stdin) / 1 / 2 / 3.. files "
+        "(same file twice, empty file, concatenation of two others, all orders of three, missing file first / middle / last, random lists; in-process and in a fresh interpreter): "
+        "one block per argument, each = digest / words of that file alone; schedule: 16 named + random schedules of content per operation "
         "for load_ksr and load_skr (one open / one read / digest = xml_hash = sha256 of the bytes served / parsed id = id in those bytes / size gate); "
         "entry: ksrsigner() to its prompt over 4 schedules; output: every archived SKR, a one-bundle SKR and generated trust anchors (incl. validity with non-UTC offsets), to stdout and to a real path that "
         f"beforehand is {' / '.join(PRE_STATES)} (digest logged = digest of the octets on disk afterwards, read with plain open; file = the document); "
